@@ -45,9 +45,26 @@ FILES = [
     "arg_spec.py",
 ]
 
+# phase 2: the rest of the package (everything that is not a test module) is inventoried
+# as well; the property anchors the seven files above, but set iteration anywhere in the
+# checker can reach a diagnostic (format_strings.py and typeshed.py did)
+NOT_INVENTORIED = {"tests.py", "conftest.py", "__main__.py"}
+
+
+def all_files(repo):
+    base = Path(repo) / "pyanalyze"
+    extra = sorted(
+        p.name for p in base.glob("*.py")
+        if p.name not in FILES and not p.name.startswith("test_") and p.name not in NOT_INVENTORIED
+    )
+    return FILES + extra
+
+
 SET_TYPE_NAMES = {"set", "Set", "frozenset", "FrozenSet", "AbstractSet", "MutableSet"}
 DICT_TYPE_NAMES = {"dict", "Dict", "defaultdict", "DefaultDict", "Mapping", "MutableMapping", "OrderedDict"}
 SET_RETURNING_METHODS = {"copy", "union", "difference", "intersection", "symmetric_difference"}
+MODULE_NAMES = {"typing", "typing_extensions", "collections", "itertools", "functools", "ast", "inspect", "qcore", "os", "sys",
+                "re", "types", "builtins", "enum", "contextlib", "textwrap", "typeshed_client", "asynq"}
 SET_MUTATORS = {"add", "update", "discard", "remove", "clear", "difference_update", "intersection_update",
                 "symmetric_difference_update"}
 SET_PREDICATES = {"issubset", "issuperset", "isdisjoint"}
@@ -168,6 +185,11 @@ def expr_kind(e, env: Env, local):
             if isinstance(a0, ast.Name) and a0.id in ("set", "frozenset"):
                 return "dictofset"
             return None
+        if isinstance(e.func, ast.Attribute) and isinstance(e.func.value, ast.Name):
+            if e.func.value.id in ("set", "frozenset") and fn in SET_RETURNING_METHODS:
+                return "set"  # set.intersection(*sets), set.union(...)
+            if e.func.value.id in MODULE_NAMES:
+                return None  # typing_extensions.get_origin(...) is not FunctionScope.get_origin
         if isinstance(e.func, ast.Attribute):
             recv = expr_kind(e.func.value, env, local)
             if recv == "set" and fn in SET_RETURNING_METHODS:
@@ -365,6 +387,8 @@ def _context(node, parent, grand):
         return "format"
     if isinstance(parent, ast.arguments):
         return "flow"  # a default value
+    if isinstance(parent, ast.Lambda):
+        return "flow"  # the value a lambda returns
     return "other:" + P
 
 
@@ -572,13 +596,14 @@ def inventory(repo: str):
     base = Path(repo) / "pyanalyze"
     trees = []
     for f in FILES:
-        p = base / f
-        if not p.exists():
+        if not (base / f).exists():
             raise TranslateError(f"anchored file missing: {f}")
-        trees.append((f, ast.parse(p.read_text())))
+    files = all_files(repo)
+    for f in files:
+        trees.append((f, ast.parse((base / f).read_text())))
     env = gather(trees)
     sites = []
-    for f in FILES:
+    for f in files:
         sites += scan_file(base / f, f, env)
     # ordinal among identical keys
     seen = {}
@@ -621,8 +646,8 @@ def translate(repo: str) -> str:
         for s in sites
     ]
     return (
-        "(* GENERATED by harness/translate/sites.py from pyanalyze/{value,stacked_scopes,signature,type_object,\n"
-        "   checker,name_check_visitor,arg_spec}.py -- do not edit *)\n"
+        "(* GENERATED by harness/translate/sites.py from every non-test module of pyanalyze (the seven files\n"
+        "   anchored by C10 first) -- do not edit *)\n"
         "From Coq Require Import String List.\nRequire Import PV.Det.Audit.\nImport ListNotations.\nOpen Scope string_scope.\n\n"
         "Definition sites : list site := [\n" + ";\n".join(rows) + "\n]%list.\n"
     )
